@@ -249,6 +249,10 @@ func stressOps() []stressOp {
 			return serve(e.srv, reqSpec{method: "POST", path: "/login", form: url.Values{"user": {"alice"}, "password": {"wrong"}}})
 		}},
 		{"Store.Put", 4, storeOp(func(st *samlidp.MemoryStore, r *rand.Rand) { _ = st.Put(key(r), "v") })},
+		{"Store.Put (value that cannot be marshalled)", 1, storeOp(func(st *samlidp.MemoryStore, r *rand.Rand) { _ = st.Put(key(r), make(chan int)) })},
+		{"PUT /services/{id} (metadata that cannot be stored: validUntil +24:00)", 2, hs(func(e *stressEnv, r *rand.Rand) reqSpec {
+			return reqSpec{method: "PUT", path: "/services/sp3", body: unstorableMetadataXML(entityOf(3), acsOf(3))}
+		})},
 		{"Store.Get", 4, storeOp(func(st *samlidp.MemoryStore, r *rand.Rand) { var v string; _ = st.Get(key(r), &v) })},
 		{"Store.Delete", 2, storeOp(func(st *samlidp.MemoryStore, r *rand.Rand) { _ = st.Delete(key(r)) })},
 		{"Store.List", 4, storeOp(func(st *samlidp.MemoryStore, r *rand.Rand) { _, _ = st.List("/") })},
@@ -309,6 +313,7 @@ func keySequences(e *stressEnv, withBcrypt bool) []seqStep {
 		{"seq PUT /services/{id} (new)", reqSpec{method: "PUT", path: "/services/sq", body: md(7)}},
 		{"seq PUT /services/{id} (replace, other entity ID)", reqSpec{method: "PUT", path: "/services/sq", body: md(8)}},
 		{"seq PUT /services/{id} (replace, same entity ID)", reqSpec{method: "PUT", path: "/services/sq", body: md(8)}},
+		{"seq PUT /services/{id} (metadata that cannot be stored)", reqSpec{method: "PUT", path: "/services/sq", body: unstorableMetadataXML(entityOf(8), acsOf(8))}},
 		{"seq GET /services/{id}", reqSpec{method: "GET", path: "/services/sq"}},
 		{"seq POST /sso for the replaced entity ID", sso(7)},
 		{"seq POST /sso for the new entity ID", sso(8)},
@@ -649,6 +654,7 @@ type hop struct {
 	Found    bool     `json:"found,omitempty"`
 	Got      string   `json:"got,omitempty"`
 	Keys     []string `json:"keys,omitempty"`
+	Failed   bool     `json:"failed,omitempty"` // putbad: Put returned an error
 	Inv, Ret int64
 }
 
@@ -661,6 +667,8 @@ func applySpec(state map[string]string, o hop) (bool, func()) {
 	case "get":
 		v, ok := state[o.Key]
 		return ok == o.Found && (!ok || v == o.Got), func() {}
+	case "putbad": // a value that cannot be marshalled: an error, and the map is unchanged
+		return o.Failed, func() {}
 	case "put":
 		old, had := state[o.Key]
 		state[o.Key] = o.Val
@@ -757,6 +765,8 @@ func linHistories(seed int64, dur time.Duration) stressResult {
 					o.Op, o.Key, o.Val = "put", linKeys[c%len(linKeys)], fmt.Sprintf("c%d", c)
 				case x < 3:
 					o.Op, o.Val = "put", fmt.Sprintf("c%d.%d", c, i)
+				case x == 3 && r.Intn(2) == 0:
+					o.Op = "putbad" // every operation after a failing Put must still complete
 				case x < 6:
 					o.Op = "get"
 				case x < 8:
@@ -780,6 +790,8 @@ func linHistories(seed int64, dur time.Duration) stressResult {
 				o.Found, o.Got = err == nil, v
 			case "put":
 				_ = st.Put(o.Key, o.Val)
+			case "putbad":
+				o.Failed = st.Put(o.Key, make(chan int)) != nil
 			case "del":
 				_ = st.Delete(o.Key)
 			case "list":
